@@ -508,6 +508,9 @@ func (x *exec) keyTerm(s *State, k *Val, m *types.Map, kt types.Type) string {
 	return x.term(k)
 }
 
+// mapStore: one map assignment executed while a change pair's execute closure ran (for A-FRESHKEY).
+type mapStore struct{ name, ref, key, cond string }
+
 func (x *exec) mapUpdate(fr *frame, s *State, mv, k, v *Val, m *types.Map, pos token.Pos) {
 	ref := x.term(mv)
 	if x.claims("nilmap") {
@@ -516,6 +519,9 @@ func (x *exec) mapUpdate(fr *frame, s *State, mv, k, v *Val, m *types.Map, pos t
 	dom, val, card, names, sorts := x.mapParts(s, m, ref)
 	kt := x.term(k)
 	had := x.c.Let("had", "Bool", Sel(dom, kt))
+	if x.recording {
+		x.recStores = append(x.recStores, mapStore{name: names[0], ref: ref, key: kt, cond: s.reach})
+	}
 	x.h.set(s, names[0], sorts[0], Sto(x.h.get(s, names[0], sorts[0]), ref, Sto(dom, kt, "true")))
 	x.h.set(s, names[1], sorts[1], Sto(x.h.get(s, names[1], sorts[1]), ref, Sto(val, kt, x.term(v))))
 	x.h.set(s, names[2], sorts[2], Sto(x.h.get(s, names[2], sorts[2]), ref, Ite(had, card, x.c.IAdd(card, x.c.ILit(1)))))
